@@ -248,6 +248,7 @@ func (e *Env) execWith(scs []*scen.Scenario, timeout time.Duration, extraEnv []s
 			bin = e.TestWorld
 		}
 	}
+	extra = append(extra, first.World.Args...)
 	home := e.fsPath("/home/sim")
 	if first.World.Home != "" {
 		home = e.fsPath(first.World.Home)
